@@ -14,12 +14,23 @@ What the solver decides, on the REAL code (floats = exact reals):
  jaref/*                 _solve_init_jaref_kernel: Jaref = J.qacc - aref (dense single-thread, dense split over several
                          threads with atomics, sparse, compact)
  grad/*                  _update_gradient_grad: grad = Ma - qfrc_smooth - qfrc_constraint and grad_dot += grad^2
+ hessian/leaves          _active_check(tid, thr) = [tid < thr], _state_check(D, state) = D if QUADRATIC else 0
+ hessian/dense-tiled*/   ONE BLOCK of the real tile kernels _update_gradient_JTDAJ_dense_tiled / _compact (wsym/tiles.BlockInterp:
+   <nv_pad>x<tile>x<njmax> collective tile ops, block_dim() = 1 lane as on the CPU backend): for every nefc in 0..njmax and every entry,
+                         ctx.h = densified M + sum over rows e < nefc with state QUADRATIC of D_e J_e^T J_e, and ctx.h is
+                         independent of every cell (D, state, J) of the rows >= nefc incl. padding rows (relational query);
+                         a converged world is not written
+ hessian/cone-dense/*    _update_gradient_JTCJ_dense: for a CONE contact the increment of ctx.h[d1,d2] = (J^T C J)[d1,d2] with C =
+                         MuJoCo's cone Hessian contact.H (validated against mujoco): argument gathering, the contraction
+                         formula of _elliptic_hessian_entry_from_projections, and the polynomial identity with contact.H
  (qfrc_constraint = J^T force and the _qfrc_constraint_from_grad inversion are decided in C24 qfrc/*.)
 
 Together: at the qacc the solver reports, Jaref is the residual of that qacc, the stored forces are the negative gradient of
 MuJoCo's convex constraint cost at that residual, and the gradient whose norm is tested against the tolerance is the
-gradient of MuJoCo's total cost.  Outside (not encodable / iterative float algorithm): that Newton / CG / line search
-reach the tolerance, Hessian assembly and factorisation, tile kernels (_update_gradient_grad_tiled, CG tiles), Ma = M.qacc.
+gradient of MuJoCo's total cost, and the dense Newton Hessian is M + J^T D J (+ J^T C J for elliptic cones) over exactly the
+live rows.  Outside (iterative float algorithm / not built): that Newton / CG / line search reach the tolerance, the Cholesky
+factorisation and solve, the sparse and the incremental Hessian kernels (_JTDACJ_sparse, _update_gradient_init_h_sparse,
+_update_gradient_h_incremental*), the CG tile kernels and _update_gradient_grad_tiled, Ma = M.qacc, lane schedules of GPU blocks.
 """
 
 import numpy as np
@@ -634,25 +645,30 @@ def leaf_replay(ctx, what, model):
 # ------------------------------------------------------------------------------------------------ elliptic cone Hessian J^T C J (dense)
 
 
-def ref_cone_hessian(jar, D0, mu, fr, T, Dm, iT):
+def ref_cone_hessian(jar, mu, fr, Dm, A, B):
   """MuJoCo's cone Hessian contact.H (mj_constraintUpdate, middle zone) in residual space, dim x dim nested list.
-  T = |(jar_j*fr_j)|, Dm*mu^2*(1+mu^2) = D0, iT*T = 1 (helpers symbolically, computed numerically)"""
+  Helpers (computed numerically, tied by polynomial constraints symbolically): Dm = D0 / (mu^2 (1 + mu^2)), A = mu / T,
+  B = mu * N / T^3 with N = jar_0 * mu, T = |(jar_j * fr_j)_j|."""
   dim = len(jar)
   N = L.mul(jar[0], mu)
   U = [L.mul(jar[j], fr[j - 1]) for j in range(1, dim)]
   h = [[0.0] * dim for _ in range(dim)]
   h[0][0] = 1.0
-  a = L.neg(L.mul(mu, iT))
-  b = L.mul(mu, N, iT, iT, iT)
-  dg = L.sub(L.mul(mu, mu), L.mul(mu, N, iT))
+  dg = L.sub(L.mul(mu, mu), L.mul(N, A))
   for j in range(1, dim):
-    h[0][j] = h[j][0] = L.mul(a, U[j - 1])
+    h[0][j] = h[j][0] = L.neg(L.mul(A, U[j - 1]))
   for k_ in range(1, dim):
     for j in range(1, dim):
-      h[k_][j] = L.mul(b, U[j - 1], U[k_ - 1])
+      h[k_][j] = L.mul(B, U[j - 1], U[k_ - 1])
     h[k_][k_] = L.add(h[k_][k_], dg)
   sc = [mu] + list(fr[: dim - 1])
   return [[L.mul(Dm, h[r][c], sc[r], sc[c]) for c in range(dim)] for r in range(dim)]
+
+
+def ref_cone_hessian_numeric(x, D0, mu, fr):
+  dim = len(x)
+  T = float(np.sqrt(sum((x[j] * fr[j - 1]) ** 2 for j in range(1, dim))))
+  return ref_cone_hessian(x, mu, fr, D0 / (mu * mu * (1 + mu * mu)), mu / T, mu * x[0] * mu / T**3)
 
 
 def validate_cone_hessian(seed):
@@ -676,9 +692,7 @@ def validate_cone_hessian(seed):
       if dim > 1 and d.efc_state[a] == L.CONE:
         x = [float(v) for v in jar[a : a + dim]]
         fr = [float(v) for v in con.friction]
-        T = float(np.sqrt(sum((x[j] * fr[j - 1]) ** 2 for j in range(1, dim))))
-        mu = float(con.mu)
-        R = ref_cone_hessian(x, float(d.efc_D[a]), mu, fr, T, float(d.efc_D[a]) / (mu * mu * (1 + mu * mu)), 1.0 / T)
+        R = ref_cone_hessian_numeric(x, float(d.efc_D[a]), float(con.mu), fr)
         if not np.allclose(np.array(con.H[: dim * dim]).reshape(dim, dim), np.array(R, dtype=float), rtol=1e-8, atol=1e-10):
           return f"cone Hessian reference differs from mujoco contact.H (dim {dim})"
         seen.add(dim)
@@ -700,11 +714,56 @@ def goal_cone_hessian(spec, pre, post):
   active = (not bool(pre["ctx_done_in"][w])) and int(pre["efc_state_in"][w, e0]) == L.CONE and float(pre["contact_dist_in"][c]) - float(pre["contact_includemargin_in"][c]) < 0
   want = 0.0
   if active and T > 0:
-    H = np.array(ref_cone_hessian(x, D0, mu, fr, T, D0 / (mu * mu * (1 + mu * mu)), 1.0 / T), dtype=float)
+    H = np.array(ref_cone_hessian_numeric(x, D0, mu, fr), dtype=float)
     J = np.array([[float(pre["efc_J_in"][w, e0 + j, dd]) for dd in (d1, d2)] for j in range(dim)])
     want = float(J[:, 0] @ H @ J[:, 1])
   ok = lib.approx(got, want, rtol=3e-3, atol=1e-3 * max(1.0, abs(want)))
   return ok, f"contact {c} (rows {e0}..{e0 + dim - 1}, world {w}) active {active}: ctx.h[{d1},{d2}] += {got}; (J^T C J)[{d1},{d2}] with MuJoCo's cone Hessian = {want}; jaref {x} mu {mu} friction {fr[: dim - 1]} D0 {D0}"
+
+
+def cone_replay(ctx, name, k, args, loc, env):
+  """launch the REAL _update_gradient_JTCJ_dense over (contacts x triangle entries); trial 0 = the solver's model, further
+  trials keep its integers and re-draw the floats inside the preconditions (an argument-level or formula-level mismatch need
+  not be visible on the model's own values); goal = J^T C J with MuJoCo's cone Hessian for all three entries"""
+
+  def _rp(model):
+    import warp as wp
+
+    conc = replay.concretize_args(model, k, args)
+    specs = kh.arg_specs(k)
+    kern = replay.locate(loc)
+    rng = np.random.default_rng(99)
+    tri = [(0, 0), (1, 0), (1, 1)]
+    ok, text, pre = True, "", None
+    for trial in range(5):
+      vals, arrays = replay.build_arrays(conc, specs)
+      if trial:
+        for label, arr in arrays.items():
+          a = arr.numpy()
+          if a.dtype.kind == "f" and a.size:
+            r = rng.uniform(0.3, 2.0, size=a.shape)
+            if label in ("ctx_Jaref_in", "efc_J_in", "ctx_h_out"):
+              r = r * rng.choice([-1.0, 1.0], size=a.shape)
+            if label == "contact_dist_in":
+              r = -r * 0.01
+            if label == "contact_includemargin_in":
+              r = r * 0.0
+            arr.assign(r.astype(a.dtype))
+      pre = {k_: v.numpy().copy() for k_, v in arrays.items()}
+      ncon = arrays["contact_dim_in"].shape[0]
+      wp.launch(kern, dim=(ncon, 3), inputs=vals[:-1], outputs=vals[-1:], device="cpu")
+      wp.synchronize()
+      post = {k_: v.numpy().copy() for k_, v in arrays.items()}
+      for d1, d2 in tri:
+        ok, text = goal_cone_hessian({"env": dict(env, dof1=d1, dof2=d2)}, pre, post)
+        if not ok:
+          break
+      if not ok:
+        text += f" (floats re-drawn, trial {trial})" if trial else ""
+        break
+    return (not ok), L.write_replay(PID, ctx.unit, name, {"kernel": loc, "launch_dim": [int(ncon), 3], "inputs": {k_: v.tolist() for k_, v in pre.items()}, "result": text})
+
+  return _rp
 
 
 def unit_cone_hessian(dim, layout="A"):
@@ -756,37 +815,73 @@ def unit_cone_hessian(dim, layout="A"):
       setint("ctx_done_in", [False] * nworld)
       replay.snapshot_initial(args)
       it = L.func_interp()
+      cap = []
+      entry = solver._elliptic_hessian_entry_from_projections
+
+      def hook(interp, frame, a, cap=cap):
+        r = interp.call_pyfunc(entry.func, a, name="_elliptic_hessian_entry_from_projections", caller=frame)
+        cap.append((interp.active(frame), list(a), r))
+        return r
+
+      it.summaries[entry.key] = hook
       kh.run(k, args, tid=(c, el), interp=it)
       pre = lambda lab, *idx, k_=0: args[lab].cell.get(idx, k_, snap=args[lab].cell.d0)
       x = [pre("ctx_Jaref_in", w, e0 + j) for j in range(dim)]
       fr = [pre("contact_friction_in", c, k_=i) for i in range(5)]
       mu = fr[0] * pre("opt_impratio_invsqrt", w)
       D0 = pre("efc_D_in", w, e0)
-      if len(it.roots) != 1:
-        ctx.error(f"expected one sqrt in the kernel, saw {len(it.roots)}")
-        return
+      J = lambda a_, dd: pre("efc_J_in", w, e0 + a_, dd)
+      if len(it.roots) != 1 or len(cap) != 1:
+        s0 = ctx.session([mu > 0, D0 > 0])
+        ctx.reach(s0, f"twin:cone-contact/h[{d1},{d2}]", True)
+        ctx.prove(s0, f"h[{d1},{d2}]/reached", False, True, names={"mu": mu}, replay=cone_replay(ctx, f"h{d1}{d2}", k, args, loc, {"w": w, "conid": c, "e0": e0, "dim": dim}), desc=f"elliptic cone Hessian (condim {dim}): a CONE contact does not reach the Hessian-entry computation exactly once ({len(it.roots)} sqrt / {len(cap)} calls)")
+        continue
       T = list(it.roots.values())[0]
-      Dm, iT = z3.Real("Dm"), z3.Real("iT")
+      N = x[0] * mu
+      U = [x[j] * fr[j - 1] for j in range(1, dim)]
+      Dm, A, B = z3.Real("Dm"), z3.Real("A"), z3.Real("B")
       live = pre("contact_dist_in", c) - pre("contact_includemargin_in", c) < 0
-      bg = [core.zbool(a) for a in it.assumes] + [mu > 0, D0 > 0, T >= MINVAL, T * T * T >= MINVAL, Dm * mu * mu * (1 + mu * mu) == D0, iT * T == 1] + [fr[i] > 0 for i in range(dim - 1)]
+      bg = [core.zbool(a) for a in it.assumes] + [mu > 0, D0 > 0, T >= MINVAL, T * T * T >= MINVAL, Dm * mu * mu * (1 + mu * mu) == D0, A * T == mu, B * T * T * T == mu * N] + [fr[i] > 0 for i in range(dim - 1)]
       sess = ctx.session(bg, tactic=NL)
       ctx.reach(ctx.session(bg), f"twin:cone-contact/h[{d1},{d2}]", live)
-      H = ref_cone_hessian(x, D0, mu, fr, T, Dm, iT)
-      want = 0.0
-      for a_ in range(dim):
-        for b_ in range(dim):
-          want = L.add(want, L.mul(pre("efc_J_in", w, e0 + a_, d1), H[a_][b_], pre("efc_J_in", w, e0 + b_, d2)))
       hc = args["ctx_h_out"].cell
       inc = hc.get((w, d1, d2)) - pre("ctx_h_out", w, d1, d2)
 
-      class KT:
-        kernel, tid = k, (c, el)
-
-      KT.args = args
-      env = {"w": w, "conid": c, "e0": e0, "dim": dim, "dof1": d1, "dof2": d2, "randomize_floats": 0}
-      rp = lib.make_replay(ctx, KT, loc, f"h{d1}{d2}", "goal", goal="checks.c06:goal_cone_hessian", env=env)
+      rp = cone_replay(ctx, f"h{d1}{d2}", k, args, loc, {"w": w, "conid": c, "e0": e0, "dim": dim})
       names = {f"jaref{j}": x[j] for j in range(dim)} | {"mu": mu, "D0": D0, "T": T}
-      ctx.prove(sess, f"h[{d1},{d2}]+=(JT.C.J)[{d1},{d2}]", inc == want, live, names=names, replay=rp, desc=f"elliptic cone Hessian (condim {dim}): the increment of ctx.h[{d1},{d2}] differs from J^T C J with MuJoCo's cone Hessian C (contact.H)")
+      g, a, r = cap[0]
+      P = lambda nm, goal, guard, desc: ctx.prove(sess, f"h[{d1},{d2}]/{nm}", goal, guard, names=names, replay=rp, desc=f"elliptic cone Hessian (condim {dim}) entry ({d1},{d2}): {desc}")
+      P("reached", g, live, "a CONE contact with dist < margin does not contribute")
+      # (1) the kernel hands the Hessian-entry function MuJoCo's quantities
+      z1 = [mu * J(0, d1)] + [fr[j - 1] * J(j, d1) for j in range(1, dim)]
+      z2 = [mu * J(0, d2)] + [fr[j - 1] * J(j, d2) for j in range(1, dim)]
+      wants = [("dm", Dm), ("mu_over_t", A), ("mu_n_over_ttt", B), ("tangent_diag", mu * mu - N * A), ("z01", z1[0]), ("z02", z2[0]), ("projection1", z3.Sum([U[j - 1] * z1[j] for j in range(1, dim)])), ("projection2", z3.Sum([U[j - 1] * z2[j] for j in range(1, dim)])), ("tangent_dot", z3.Sum([z1[j] * z2[j] for j in range(1, dim)]))]
+      for (lab, y), xv in zip(wants, a):
+        P(f"arg-{lab}", cmp("==", xv, y), g, f"_elliptic_hessian_entry_from_projections receives a wrong {lab}")
+      P("adds-entry", cmp("==", inc, r), g, "ctx.h is not incremented by the entry function's result")
+      # (2) the entry function's formula, (3) the polynomial identity with MuJoCo's contact.H  (fresh variables, no premises)
+      if el == 0:
+        fa = kh.make_args(entry)
+        itf, rf = kh.run(entry, fa)
+        v = [fa[lab] for lab in ("dm", "mu_over_t", "mu_n_over_ttt", "tangent_diag", "z01", "z02", "projection1", "projection2", "tangent_dot")]
+        formula = lambda dm, mt, mn, td, a1, a2, p1, p2, tdot: dm * (a1 * a2 - mt * (a1 * p2 + a2 * p1) + mn * p1 * p2 + td * tdot)
+        sf = ctx.session([core.zbool(q) for q in itf.assumes], tactic=NL)
+        ctx.reach(sf, "twin:entry-function", True)
+        ctx.prove(sf, "entry-function==dm*(z1*z2-mu/T*(z1*p2+z2*p1)+mu*N/T^3*p1*p2+diag*tdot)", rf == formula(*v), True, names={"dm": v[0]}, replay=rp, desc="_elliptic_hessian_entry_from_projections: wrong contraction formula")
+        xs = [z3.Real(f"x{j}") for j in range(dim)]
+        frs = [z3.Real(f"f{j}") for j in range(dim - 1)]
+        mus, Dms, As, Bs = z3.Reals("mu_ Dm_ A_ B_")
+        J1 = [z3.Real(f"J{j}a") for j in range(dim)]
+        J2 = [z3.Real(f"J{j}b") for j in range(dim)]
+        Hs = ref_cone_hessian(xs, mus, frs, Dms, As, Bs)
+        Us = [xs[j] * frs[j - 1] for j in range(1, dim)]
+        y1 = [mus * J1[0]] + [frs[j - 1] * J1[j] for j in range(1, dim)]
+        y2 = [mus * J2[0]] + [frs[j - 1] * J2[j] for j in range(1, dim)]
+        lhs = formula(Dms, As, Bs, mus * mus - xs[0] * mus * As, y1[0], y2[0], z3.Sum([Us[j - 1] * y1[j] for j in range(1, dim)]), z3.Sum([Us[j - 1] * y2[j] for j in range(1, dim)]), z3.Sum([y1[j] * y2[j] for j in range(1, dim)]))
+        rhs = z3.Sum([J1[a_] * Hs[a_][b_] * J2[b_] for a_ in range(dim) for b_ in range(dim)])
+        si = ctx.session([], tactic=NL)
+        ctx.reach(si, "twin:identity", mus > 0)
+        ctx.prove(si, "identity:contraction==J^T.C.J(contact.H)", lhs == rhs, True, names={"mu": mus}, replay=lambda m: (False, "pure polynomial identity (no code involved)"), desc="the contraction formula differs from J^T C J with MuJoCo's cone Hessian")
       ctx.prove(sess, f"h[{d1},{d2}]:inactive-contact-adds-nothing", inc == 0, core.Not(live), names=names, replay=rp, desc="elliptic cone Hessian: a contact with dist >= margin contributes")
       others = [hc.get((ww, r, cc)) == pre("ctx_h_out", ww, r, cc) for ww in range(nworld) for r in range(nv) for cc in range(nv) if (ww, r, cc) != (w, d1, d2)]
       ctx.prove(sess, f"h[{d1},{d2}]:writes-only-own-entry", And(*others), True, names=names, replay=rp, desc="elliptic cone Hessian thread modifies another entry of ctx.h")
